@@ -75,18 +75,18 @@ theorem readHead_writeHead (r : Reader) (ty tag : Nat) (t : Bytes) (hty : ty < 1
     have h1 : (tag * 16 + ty) % 256 % 16 = ty := by omega
     have h2 : (tag * 16 + ty) % 256 / 16 = tag := by omega
     simp only [h1, h2]
-    have : ¬ tag = extTagThreshold := by simp only [extTagThreshold]; omega
+    have : ¬ tag = extTagRead := by simp only [extTagRead]; omega
     simp [this]
   · simp only [hlt, if_false] at h ⊢
     have hb := readByte_cons r _ (byte tag :: t) (by simpa using h)
     have hr1 : (r.adv 1).rest = byte tag :: t := by
-      have := r.rest_adv [byte (extTagThreshold * 16 + ty)] (byte tag :: t) (by simpa using h)
+      have := r.rest_adv [byte (extTagMarker * 16 + ty)] (byte tag :: t) (by simpa using h)
       simpa using this
     have hb2 := readByte_cons (r.adv 1) _ t hr1
     simp only [readHead, hb, byte_val]
-    have h1 : (extTagThreshold * 16 + ty) % 256 % 16 = ty := by simp only [extTagThreshold]; omega
-    have h2 : (extTagThreshold * 16 + ty) % 256 / 16 = extTagThreshold := by
-      simp only [extTagThreshold]; omega
+    have h1 : (extTagMarker * 16 + ty) % 256 % 16 = ty := by simp only [extTagMarker]; omega
+    have h2 : (extTagMarker * 16 + ty) % 256 / 16 = extTagRead := by
+      simp only [extTagMarker, extTagRead]; omega
     simp only [h1, h2, if_true, hb2, byte_val]
     have : tag % 256 = tag := Nat.mod_eq_of_lt htag
     simp [this]
